@@ -102,8 +102,8 @@ CHECKS = {
         "design_ref": "DESIGN.md section 8 / C11",
     },
     "C17": {
-        "technique": "Lean 4 proof (every interleaving of cache lookups/stores of several requests over a shared correct cache yields the sequential results) + controlled token-passing schedules with yield points at every cache operation, stress run, generator interleaving/abandonment",
-        "text": "Partial by nature: the theorem covers all interleavings at the granularity of cache operations in the model; real pre-emption and the GIL's atomicity are runtime facts tied by deterministic schedules injected at the cache operations, a stress run and generator interleavings.",
+        "technique": "Lean 4 proof: the cached engine as a resumption that stops at every cache operation (run_lparseP: running it is the state-passing cached engine); any number of requests interleaved by an ARBITRARY schedule of single cache operations over one shared sound cache (incl. the LRU ParseCache model with any limits) - every finished request holds its sequential result, abandoned requests leave a sound cache (C17.interleaved_requests_sequential, request_after_interleaving); rely/guarantee form under arbitrary interference (interference_safe) + controlled token-passing schedules with yield points at every cache operation of the real code, stress run, generator interleaving/abandonment",
+        "text": "The theorem covers all interleavings at the granularity of cache operations in the model (induction over the schedule; per-request safety derived from correctness against every sound cache). Real pre-emption points and the GIL's atomicity of a single cache operation are runtime facts the model cannot exhibit; they are tied by deterministic schedules injected at the cache operations of the real code, a stress run and generator interleavings (partial by nature in that respect).",
         "design_ref": "DESIGN.md section 8 / C17",
     },
 }
